@@ -52,7 +52,7 @@ Inductive lpc :=
 | QdRel (hd p : N)                     (* hazardous_release_node(free, head); return p *)
 (* qlfqueue_empty(q) *)
 | QmLdHead                             (* head = q->head *)
-| QmLdTail (hd : N) (g : nat)          (* tail = q->tail            (g: ghost, see the step function) *)
+| QmLdTail (hd : N) (g : nat)          (* tail = q->tail   (g: ghost = number of elements linked when head was read; every completed enqueue is linked) *)
 | QmLdNext (hd tl : N) (g : nat)       (* next = head->next *)
 | QmMF (hd tl nx : N) (g : nat)        (* MACHINE_FENCE *)
 | QmChk (hd tl nx : N) (g : nat).      (* if (head == q->head) return (head == tail && next == NULL) ... else retry *)
@@ -175,7 +175,7 @@ Definition lstep (s : lstate) (t : nat) : option (lstate * option lres) :=
         else go QdLdHead
     | QdRel hd p => fin (LPtr p)
 
-    | QmLdHead => go (QmLdTail (s_head s) (completed_enq s))
+    | QmLdHead => go (QmLdTail (s_head s) (length (g_enq s)))
     | QmLdTail hd g => go (QmLdNext hd (s_tail s) g)
     | QmLdNext hd tl g => go (QmMF hd tl (n_next (hget (s_heap s) hd)) g)
     | QmMF hd tl nx g => go (QmChk hd tl nx g)
